@@ -3,7 +3,7 @@
 import math
 
 
-def param_assignments(p, rng, n, exhaustive_limit=0):
+def param_assignments(p, rng, n, exhaustive_limit=0, dictionary=False):
     """In-range assignments of the advertised encode parameters: all-min, all-max, one-hot/boundary per
     parameter, pairs differing in one high bit, random.  p is a protoinfo dict."""
     eps = p['encode_parameters']
@@ -75,7 +75,7 @@ def param_assignments(p, rng, n, exhaustive_limit=0):
             res.append(a)
     # dictionary: the constants encode() compares its arguments with, all together (value-specific branches of the encoder);
     # appended beyond n so that the assignments above do not depend on it
-    consts = p.get('arg_constants') or {}
+    consts = (p.get('arg_constants') or {}) if dictionary else {}
     names = [n_ for n_, lo, hi in eps if any(lo <= c <= hi for c in consts.get(n_, []) if isinstance(c, int))]
     if names:
         combos = [dict(lo_all)]
